@@ -1037,7 +1037,6 @@ func (b *broker) subEventHistory(msg *wamp.Invocation) wamp.Message {
 	var beforeDate time.Time
 	var untilDate time.Time
 	var dateStr string
-	var topicStr string
 	var topicUri wamp.URI
 	var fromPub wamp.ID
 	var afterPub wamp.ID
@@ -1145,10 +1144,8 @@ func (b *broker) subEventHistory(msg *wamp.Invocation) wamp.Message {
 		}
 	}
 
-	topicStr, ok = msg.ArgumentsKw["topic"].(string)
-	if ok {
-		topicUri = wamp.URI(topicStr)
-	}
+	// An in-process client may pass the topic as a wamp.URI.
+	topicUri, _ = wamp.AsURI(msg.ArgumentsKw["topic"])
 
 	fromPubOp, ok := msg.ArgumentsKw["from_publication"]
 	if ok {
